@@ -78,7 +78,9 @@ impl Lexer<'_> {
                 let begin = self.index();
                 let line_text = self.text(|c| c == NEWLINE, is_escapable).await?;
                 let end = self.index();
-                let line_string = self.source_string(begin..end);
+                // Line continuations are removed before the line is compared
+                // with the delimiter.
+                let line_string = self.source_string_without_line_continuations(begin..end);
                 (line_text, line_string)
             };
 
